@@ -201,11 +201,8 @@ def body(fx, rep, m, g, f, rule, ownv, rel_key, rel_fn, assign):
                         base = base[1]
                     if not (isinstance(base, tuple) and base[0] == 's' and base[1].lstrip('*&').startswith('this->')):
                         good, why = False, 'release argument %s is not a member of the guard at entry' % show(a)
-                if assign:
-                    # release precedes the overwriting of the members
-                    first_asg = next((x['seq'] for x in p.events if x['kind'] == 'assign' and x['path'][1] == S('this')), None)
-                    if first_asg is not None and first_asg < e['seq']:
-                        good, why = False, 'members overwritten before the old grant is released'
+                # (the order of the release and of the member updates is free - move-and-swap releases last, std::exchange empties
+                # first: receiver and arguments of the release are compared with the members' entry values above)
             rep.check(good, rule, '%s owning path releases exactly once' % sname, loc,
                       'one %s on this->%s' % ('call to ' + short(rel_fn['name']) if rel_fn else 'release write', ptr), why)
         else:
